@@ -38,9 +38,13 @@ func MutexLock(m *sync.Mutex) {
 		blockYield()
 	}
 	SyncAcquire(unsafe.Pointer(m))
+	curTask.locks++
 }
 
 func MutexUnlock(m *sync.Mutex) {
+	if schedActive && curTask != nil && curTask.locks > 0 {
+		curTask.locks--
+	}
 	SyncRelease(unsafe.Pointer(m))
 	m.Unlock()
 }
@@ -49,6 +53,9 @@ func MutexTryLock(m *sync.Mutex) bool {
 	ok := m.TryLock()
 	if ok {
 		SyncAcquire(unsafe.Pointer(m))
+		if schedActive && curTask != nil {
+			curTask.locks++
+		}
 	}
 	return ok
 }
@@ -68,9 +75,13 @@ func RWLock(m *sync.RWMutex) {
 		blockYield()
 	}
 	SyncAcquire(unsafe.Pointer(m))
+	curTask.locks++
 }
 
 func RWUnlock(m *sync.RWMutex) {
+	if schedActive && curTask != nil && curTask.locks > 0 {
+		curTask.locks--
+	}
 	SyncRelease(unsafe.Pointer(m))
 	m.Unlock()
 }
@@ -120,7 +131,9 @@ func OnceDo(o *sync.Once, f func()) {
 	SyncAcquire(unsafe.Pointer(o))
 	o.Do(func() {
 		onceBusy[o] = curTask.id
+		curTask.inOnce++
 		defer func() {
+			curTask.inOnce--
 			delete(onceBusy, o)
 			SyncRelease(unsafe.Pointer(o))
 		}()
